@@ -206,7 +206,7 @@ func (st *c05State) buildPrograms(un *c05Unit, r *rng, newID func() int) {
 			}
 		}
 		src := u.pickSrc(r, t, ptr, "")
-		fromEmpty := r.chance(12)
+		fromEmpty := false // assertions on interface{} values are exercised by fixed witnesses only (c05_witness.go)
 		if fromEmpty {
 			src = "interface{}"
 		}
@@ -454,6 +454,10 @@ func (st *c05State) splitAssert(p *c05ProbeX, add func(*c05ProbeX)) {
 			subs = subs[:2]
 		}
 		q := &c05ProbeX{c05Probe: &c05Probe{Kind: "assert", T: p.T, Ptr: p.Ptr, Src: p.Src}, Dyn: p.Dyn}
+		if reg == "assert-sig" {
+			// the assertion wrongly succeeds; calling the mismatched method would panic for another reason
+			q.Form = "nouse"
+		}
 		idx := map[int]int{}
 		for _, s := range subs {
 			k, ok := idx[s.Tgt]
